@@ -55,6 +55,8 @@ type SimP4 struct {
 	// applied, gRPC error), "lost" (applied, response lost), "update" (per-update
 	// P4 error on one update of the batch, the others are applied)
 	FailKind string
+	// FailCode: canonical code of the injected per-update error (kind "update"; default INTERNAL)
+	FailCode codes.Code
 
 	Tables   map[uint32]map[string]*p4.TableEntry
 	Meters   map[uint32]map[int64]*p4.MeterConfig
@@ -63,6 +65,7 @@ type SimP4 struct {
 	Writes   int
 	WriteLog []P4WriteRec
 	Invalid  []P4Invalid
+	KeyConflicts []P4KeyConflict
 	streams  []*p4Stream
 	Reads    int
 
@@ -82,6 +85,12 @@ func newSimP4(w *World) *SimP4 {
 	}
 	s.SetInfo(info)
 	return s
+}
+
+// P4KeyConflict records an INSERT whose key was installed with different contents.
+type P4KeyConflict struct {
+	Table    string
+	Old, New *p4.TableEntry
 }
 
 func (s *SimP4) resetState() {
@@ -382,6 +391,11 @@ func (s *SimP4) applyUpdate(u *p4.Update) *p4.Error {
 		switch u.Type {
 		case p4.Update_INSERT:
 			if exists {
+				if old := tab[k]; !proto.Equal(old.GetAction(), e.GetAction()) {
+					// an INSERT under an installed key with other contents: the
+					// writer believes the key (for tunnel_peers: the id) is free
+					s.KeyConflicts = append(s.KeyConflicts, P4KeyConflict{Table: s.tabByID[e.TableId].Preamble.Name, Old: proto.Clone(old).(*p4.TableEntry), New: proto.Clone(e).(*p4.TableEntry)})
+				}
 				return p4err(codes.AlreadyExists, "entry exists")
 			}
 			if int64(len(tab)) >= s.tabByID[e.TableId].Size {
@@ -493,7 +507,11 @@ func (s *SimP4) write(reqBytes []byte, inc int, failThis bool) (st []byte) {
 	}
 	for i, u := range req.Updates {
 		if i == failIdx {
-			errs = append(errs, p4err(codes.Internal, "injected per-update failure"))
+			code := s.FailCode
+			if code == codes.OK {
+				code = codes.Internal
+			}
+			errs = append(errs, p4err(code, "injected per-update failure"))
 			anyErr = true
 			continue
 		}
@@ -546,6 +564,17 @@ func (s *SimP4) submitWrite(reqBytes []byte, inc int) *rpcCall {
 		// one slow round trip: later writes of other handlers overtake this one
 		d1 += f.SlowBy
 		s.Fired["p4-write-slow"]++
+	}
+	if failThis && s.FailKind == "bare-unknown" {
+		// what gRPC makes of an exception in the server: UNKNOWN, no per-update details, nothing applied
+		s.Fired["p4-write-fail-bare-unknown"]++
+		n := s.Writes
+		finish(d1, func() {
+			s.WriteLog = append(s.WriteLog, P4WriteRec{N: n, Inc: inc, Failed: "bare-unknown", Stamp: s.w.NextStamp()})
+			sim.Logf("p4 write #%d inc=%d failed=bare-unknown", n, inc)
+			c.errCode, c.errMsg = codes.Unknown, "internal server error (simulated)"
+		})
+		return c
 	}
 	if failThis && s.FailKind == "transport" {
 		s.Fired["p4-write-fail-transport"]++
